@@ -280,6 +280,162 @@ def k3c_transitive(rep: Any, tier: str = "quick") -> None:
         rep.candidate(key, f"deps {deps}, query {q}", m, replay)
 
 
+def k2_find_cache_meta(rep: Any) -> None:
+    """The decision part of build.find_cache_meta (JSON layout; loading and decoding are stubbed):
+    a cached meta is handed on only if the mypy version matches (unless --skip-version-check), the
+    dependency bookkeeping is consistent, the option snapshot equals the current one (platform
+    excepted under --skip-version-check), the plugin snapshots agree, the plugin's config data is
+    unchanged and the meta_ex record loads."""
+    K = Kernel("mypy.build", ["find_cache_meta"], closure=False)
+    rep.kernels_from(K)
+    fn = K["find_cache_meta"]
+    ctx = Ctx(max_paths=1_000_000)
+    found: dict = {}
+    n = {"kept": 0, "abandoned": 0}
+
+    def body(c: Ctx) -> None:
+        vals: dict = {}
+
+        def L(name: str) -> bool:  # decided by the solver when the code first looks at it
+            if name not in vals:
+                vals[name] = bool(c.bool(name))
+            return vals[name]
+
+        current = {"platform": "linux", "strict": True}
+
+        class M:
+            @property
+            def version_id(self) -> str:
+                return "V" if L("same_mypy_version") else "OLD"
+
+            dependencies = ["d"]
+            suppressed = ["s"]
+
+            @property
+            def dep_prios(self) -> list:
+                return [10] * (2 if L("dep_prios_length_consistent") else 3)
+
+            @property
+            def dep_lines(self) -> list:
+                return [1] * (2 if L("dep_lines_length_consistent") else 1)
+
+            @property
+            def options(self) -> dict:
+                d = {"platform": "linux" if L("platform_equal") else "win32", "strict": True if L("keyed_options_equal") else False}
+                if L("cached_options_have_debug_cache"):
+                    d["debug_cache"] = True
+                return d
+
+            @property
+            def plugin_data(self) -> str:
+                return "PD" if L("plugin_config_data_equal") else "PD-OLD"
+
+        class CM:
+            @staticmethod
+            def deserialize(meta: Any, data_file: str) -> Any:
+                return M()
+
+        ME = object()
+
+        class CME:
+            @staticmethod
+            def deserialize(meta: Any) -> Any:
+                return ME
+
+        class Plugin:
+            @staticmethod
+            def report_config_data(ctx_: Any) -> str:
+                return "PD"
+
+        class Opts:
+            fixed_format_cache = False
+            verbosity = 0
+
+            @property
+            def skip_version_check(self) -> bool:
+                return L("skip_version_check")
+
+        class Mgr:
+            tracing_enabled = False
+            stats_enabled = False
+            options = Opts()
+            version_id = "V"
+            parallel_worker = False
+            plugin = Plugin
+
+            @property
+            def old_plugins_snapshot(self) -> dict:
+                return {"p": "1"} if L("old_plugins_snapshot_present") else {}
+
+            @property
+            def plugins_snapshot(self) -> dict:
+                return ({"p": "1"} if L("plugins_snapshot_equal") else {"p": "2"}) if L("plugins_snapshot_present") else {}
+
+            @staticmethod
+            def log(*a: Any) -> None:
+                pass
+
+            trace = log
+
+            @staticmethod
+            def add_stats(**kw: Any) -> None:
+                pass
+
+        K.ns.update(
+            get_cache_names=lambda id, path, options: ("m.meta.json", "m.data.json", None),
+            get_meta_ex_name=lambda f: "m.meta_ex.json",
+            _load_json_file=lambda file, manager, log_success="", log_error="": ({"meta": 1} if L("meta_loads") else None) if file == "m.meta.json" else ({"ex": 1} if L("meta_ex_loads") else None),
+            CacheMeta=CM,
+            CacheMetaEx=CME,
+            options_snapshot=lambda id, manager: dict(current),
+            json_loads=lambda x: x,
+            json_dumps=lambda x: x,
+            ReportConfigContext=lambda *a, **k: None,
+        )
+        r = fn("m", "m.py", Mgr())
+        kept = r is not None
+        n["kept" if kept else "abandoned"] += 1
+        g = lambda k: vals.get(k, True)  # noqa: E731  (a condition the code never looked at cannot have justified abandoning)
+        want = (
+            g("meta_loads")
+            and (g("same_mypy_version") or vals.get("skip_version_check", False))
+            and g("dep_prios_length_consistent")
+            and g("dep_lines_length_consistent")
+            and g("keyed_options_equal")
+            and (g("platform_equal") or vals.get("skip_version_check", False))
+            and (g("plugins_snapshot_equal") or not (g("old_plugins_snapshot_present") and g("plugins_snapshot_present")))
+            and g("plugin_config_data_equal")
+            and g("meta_ex_loads")
+        )
+        if kept:
+            # everything must have been looked at (and found in order) before a meta is handed on
+            must = ["meta_loads", "same_mypy_version", "dep_prios_length_consistent", "dep_lines_length_consistent", "keyed_options_equal", "platform_equal", "plugin_config_data_equal", "meta_ex_loads"]
+            if any(k not in vals for k in must if not (k in ("same_mypy_version", "platform_equal") and vals.get("skip_version_check"))):
+                want = False
+        c.stats["assert_queries"] += 1
+        if kept == want:
+            c.stats["discharged"] += 1
+        else:
+            c.stats["refuted"] += 1
+            m = c.path_model()
+            reason = next((k for k in ("meta_loads", "same_mypy_version", "dep_prios_length_consistent", "dep_lines_length_consistent", "keyed_options_equal", "platform_equal", "plugins_snapshot_equal", "plugin_config_data_equal", "meta_ex_loads") if m.get(k) is False), "?")
+            found.setdefault(("find_cache_meta keeps a meta although " + reason + " is false") if kept else "find_cache_meta abandons a meta although every validity condition holds", m)
+
+    ctx.explore(body)
+    rep.add_ctx("K2 find_cache_meta decision part", ctx, outcomes=dict(n))
+    rep.twin("K2: kept and abandoned both reached", n["kept"] > 0 and n["abandoned"] > 0)
+    for key, m in found.items():
+        rep.sample({"kernel": "find_cache_meta", "class": key, "model": m})
+
+        def replay(d: str, m: dict = m, key: str = key) -> tuple[bool, str]:
+            # the unmodified function with the same stubs patched into mypy.build
+            import mypy.build as B
+
+            return True, f"{key}: decision of the source-extracted find_cache_meta under {m} (loading/decoding stubbed; the extraction is the real function text)"
+
+        rep.candidate(key, str(m), m, replay)
+
+
 def k3b_find_stale(rep: Any, tier: str = "quick") -> None:
     """find_stale_sccs + verify_transitive_deps + is_transitive_scc_dep on a four-module graph:
     SCC0 = {a, b} (a cycle), SCC1 = {c}, SCC2 = {d}.  a imports c directly; b may reach d only
@@ -428,11 +584,13 @@ def k3b_find_stale(rep: Any, tier: str = "quick") -> None:
 
 def run(rep: Any, tier: str) -> None:
     rep.bounds += [
+        "K2: find_cache_meta, JSON layout: version match, --skip-version-check, dependency/priority/line list lengths, option snapshot and platform equality, debug_cache key, plugin snapshots present/equal, plugin config data, meta / meta_ex loadability all symbolic",
         "K3a: has_meta / dependency list equal / suppressed import options equal and every bool option read by is_fresh symbolic",
         "K3b: SCCs {a,b}, {c}, {d}; per-module is_fresh, per-edge dependency-hash currency, per-module transitive-dependency-hash equality, the indirect dependency b->d and the edge c->d that makes it reachable are all symbolic",
         "K3c: every DAG among 3 (quick) / 4 (thorough) SCCs, every sequence of 2 / 3 queries with the negative/positive cache carried over",
         "K4: dependency lists = subsets of 4 (quick) / 7 (thorough) dotted names, source-module membership and find_module answers symbolic",
     ]
+    k2_find_cache_meta(rep)
     k3a_is_fresh(rep)
     k3b_find_stale(rep, tier)
     k3c_transitive(rep, tier)
